@@ -133,6 +133,13 @@ class ChildWorld:
         self._cb = CLOCKFN(self.clock)
         self.hook_clock = self.lib.engineexport_verif_set_clock(self._cb)
         self.hook_cap = self.lib.engineexport_verif_set_loopcap(int(self.case.get("loopcap", 300000)))
+        self.sandbox = None
+        if self.case.get("sandbox"):
+            import tempfile
+            root = os.path.join(os.environ.get("RDSIM_WORK", "/verif/.work"), "sbx")
+            os.makedirs(root, exist_ok=True)
+            self.sandbox = tempfile.mkdtemp(prefix="lt%d-" % os.getpid(), dir=root)
+            os.chdir(self.sandbox)
         lp = self.libpath
         engine_collection._get_engine_path = lambda: lp
         self.ec = engine_collection
@@ -189,6 +196,154 @@ class ChildWorld:
                     blocks.append(p)
         for p in blocks:
             libc.free(p)
+
+    # ---- file system ops (C12): a sandbox directory per lifetime, paths relative to its root unless flagged absolute
+    def fs_path(self, rel, absolute):
+        import os as _os
+        if absolute:
+            return _os.path.join(self.sandbox, rel)
+        # relative to the current working directory
+        return _os.path.relpath(_os.path.join(self.sandbox, rel), _os.getcwd())
+
+    def fs_op(self, ev, op, eng):
+        import json as _json
+        import os as _os
+        import shutil
+        from . import phys as P
+        st = self.st
+        name = op[0]
+        objs = self.kept
+        if name == "fs_build":
+            nm, kind, pl = op[1], op[2], op[3]
+            if kind == "network":
+                o = st.rdnetwork_from_dict(pl["d"], st.UnitsSystem(**pl["pus"]))
+            elif kind == "space":
+                o = st.rdspace_from_dict(pl["d"], st.UnitsSystem(**pl["pus"]))
+            elif kind == "system":
+                o = self.get_system(pl["sidx"]).copy()
+            elif kind == "script":
+                o = self.get_script(pl["sidx"]).copy()
+            elif kind == "trajectory":
+                script = self.get_script(pl["sidx"])
+                self.clock.set_plan({"slices": [5, 3], "ms": 1000})
+                self.global_size = script.system.state_size()
+                o = st.simulate_script(script, eng)
+            else:
+                raise ValueError(kind)
+            objs[nm] = (kind, o)
+            ev["phys"] = P.phys(o)
+        elif name == "fs_phys":
+            ev["phys"] = P.phys(objs[op[1]][1])
+        elif name == "fs_save":
+            kind, o = objs[op[1]]
+            path = self.fs_path(op[2], op[3].get("abs", False))
+            ev["path"] = path.replace(self.sandbox, "<sandbox>")
+            if kind == "network":
+                st.save_rdnetwork(o, path)
+            elif kind == "space":
+                st.save_rdspace(o, path)
+            elif kind == "system":
+                st.save_rdsystem(o, path)
+            elif kind == "script":
+                st.save_rdscript(o, path)
+            elif kind == "trajectory":
+                st.save_rdtrajectory(o, path, separate_data=bool(op[3].get("separate", True)))
+        elif name == "fs_load":
+            nm, kind = op[1], op[2]
+            path = self.fs_path(op[3], op[4].get("abs", False))
+            ev["path"] = path.replace(self.sandbox, "<sandbox>")
+            ev["cwd"] = _os.path.relpath(_os.getcwd(), self.sandbox)
+            if kind == "network":
+                o = st.load_rdnetwork(path)
+            elif kind == "space":
+                o = st.load_rdspace(path)
+            elif kind == "system":
+                o = st.load_rdsystem(path)
+            elif kind == "script":
+                o = st.load_rdscript(path)
+            elif kind == "trajectory":
+                o = st.load_rdtrajectory(path)
+            objs[nm] = (kind, o)
+            ev["phys"] = P.phys(o)
+        elif name == "fs_chdir":
+            _os.chdir(_os.path.join(self.sandbox, op[1]))
+        elif name == "fs_mkdir":
+            _os.makedirs(_os.path.join(self.sandbox, op[1]), exist_ok=True)
+        elif name == "fs_move":
+            shutil.move(_os.path.join(self.sandbox, op[1]), _os.path.join(self.sandbox, op[2]))
+        elif name == "fs_copy":
+            shutil.copytree(_os.path.join(self.sandbox, op[1]), _os.path.join(self.sandbox, op[2]))
+        elif name == "fs_fixpoint":
+            kind, o = objs[op[1]]
+            to_d = {"network": st.rdnetwork_to_dict, "space": st.rdspace_to_dict, "system": st.rdsystem_to_dict,
+                    "script": st.rdscript_to_dict}[kind]
+            from_d = {"network": st.rdnetwork_from_dict, "space": st.rdspace_from_dict, "system": st.rdsystem_from_dict,
+                      "script": st.rdscript_from_dict}[kind]
+            d1 = to_d(o)
+            if op[2]:
+                d1j = _json.loads(_json.dumps(d1))
+            else:
+                import copy as _copy
+                d1j = _copy.deepcopy(d1)
+            o2 = from_d(d1j)
+            d2 = to_d(o2)
+            n1 = _json.dumps(d1, sort_keys=True, default=list)
+            n2 = _json.dumps(d2, sort_keys=True, default=list)
+            ev["equal"] = (n1 == n2)
+            if n1 != n2:
+                ev["d1"] = n1[:3000]
+                ev["d2"] = n2[:3000]
+            ev["phys"] = P.phys(o2)
+        elif name == "fs_split":
+            # multi-file layout written from the library's own dictionary form, with relative references
+            kind, o = objs[op[1]]
+            top = op[2]
+            lay = op[3]
+            d = st.rdsystem_to_dict(o)
+            topdir = _os.path.dirname(_os.path.join(self.sandbox, top))
+            _os.makedirs(topdir, exist_ok=True)
+            import numpy as _np
+
+            def wjson(rel, obj):
+                p = _os.path.join(topdir, rel)
+                _os.makedirs(_os.path.dirname(p), exist_ok=True)
+                with open(p, "w", encoding="utf-8") as f:
+                    _json.dump(obj, f, default=list)
+            if lay.get("network"):
+                wjson(lay["network"], d["network"])
+                d["network"] = lay["network"]
+            if lay.get("space"):
+                sd = d["space"]
+                if lay.get("cell_env") and sd.get("type") == "grid":
+                    sp_dir = _os.path.dirname(_os.path.join(topdir, lay["space"]))
+                    _os.makedirs(sp_dir, exist_ok=True)
+                    ce = sd["cell_env"]
+                    p = _os.path.join(sp_dir, lay["cell_env"])
+                    if lay["cell_env"].endswith(".npy"):
+                        _np.save(p, _np.array(ce, dtype=int))
+                    else:
+                        with open(p, "w") as f:
+                            f.write((", " if lay.get("commas") else " ").join(str(int(c)) for c in ce))
+                    sd["cell_env"] = lay["cell_env"]
+                wjson(lay["space"], sd)
+                d["space"] = lay["space"]
+            if lay.get("state"):
+                p = _os.path.join(topdir, lay["state"])
+                _os.makedirs(_os.path.dirname(p), exist_ok=True)
+                _np.save(p, _np.array(d["state"]["value"], dtype=float))
+                d["state"] = {"value": lay["state"], "units": d["state"]["units"]}
+            if lay.get("chemostats"):
+                p = _os.path.join(topdir, lay["chemostats"])
+                _os.makedirs(_os.path.dirname(p), exist_ok=True)
+                if lay["chemostats"].endswith(".npy"):
+                    _np.save(p, _np.array(d["chemostats"], dtype=int))
+                else:
+                    with open(p, "w") as f:
+                        f.write(" ".join(str(int(c)) for c in d["chemostats"]))
+                d["chemostats"] = lay["chemostats"]
+            wjson(_os.path.basename(top), d)
+        else:
+            raise ValueError(name)
 
     # ---- observation through the exported getters (side-effect freedom is itself checked by C08 twins)
     def observe(self):
@@ -412,6 +567,8 @@ class ChildWorld:
             ev["loops"] = loops
             eus = eng._units_system
             ev["eus"] = {"space": eus["space"], "time": eus["time"], "quantity": eus["quantity"]}
+        elif name.startswith("fs_"):
+            self.fs_op(ev, op, eng)
         elif name == "sysinfo":
             # what the front end made of the description: state, chemostat map (C04 twins)
             system = self.get_system(sidx)
@@ -452,11 +609,18 @@ class ChildWorld:
                 except Exception as e:  # recorded, judged by the oracles
                     ev = {"op": op[0], "exc": "%s: %s" % (type(e).__name__, e),
                           "tb": traceback.format_exc(limit=6)}
+                    if getattr(self, "sandbox", None):
+                        ev["exc"] = ev["exc"].replace(self.sandbox, "<sandbox>")
+                        ev["tb"] = ev["tb"].replace(self.sandbox, "<sandbox>")
                     if op[0] in ("setup", "simulate_script"):
                         setup_failed = True
                 ev["e"] = ei
                 ev["i"] = oi
                 _send(self.wfd, ev)
+        if self.sandbox:
+            import shutil
+            os.chdir("/")
+            shutil.rmtree(self.sandbox, ignore_errors=True)
         _send(self.wfd, {"__done__": True})
 
 
@@ -565,6 +729,11 @@ def run_lifetime(case, lt_index, libpath, timeout=30.0):
         except ProcessLookupError:
             pass
     _, st = os.waitpid(pid, 0)
+    if case.get("sandbox"):
+        import glob
+        import shutil
+        for d in glob.glob(os.path.join(os.environ.get("RDSIM_WORK", "/verif/.work"), "sbx", "lt%d-*" % pid)):
+            shutil.rmtree(d, ignore_errors=True)
     # drain stderr
     try:
         while True:
